@@ -189,6 +189,9 @@ func (e *Engine) ghostAssign(st *State, env *Env, g GhostUpdate) {
 	if g.LHS.Op == "id" {
 		if old, ok := st.gvars[g.LHS.Name]; ok {
 			st.gvars[g.LHS.Name] = Val{S: env.coerce(rhs, old.T).S, T: old.T}
+			if st.writes != nil {
+				st.writes["$gvar:"+g.LHS.Name] = true // a loop (or callback) that updates a ghost variable: havocked at the cut
+			}
 			return
 		}
 	}
